@@ -400,6 +400,9 @@ def oracle_c03(rec, driver=None):
             issues.append(dict(what='budget-table-mismatch', model=mb, table=hi, n=n))
     for hk, (i, e) in enumerate(hooks):
         post = e['after']['pop']
+        n = len(post) if cfg['hook'] == 'append' else cfg['n_agents']     # (a hook may have enlarged the population)
+        if cfg['hook'] == 'append':
+            lo, hi = budget(cfg['kind'], n)
         k = i + 1
         j = 0
         while j < n:
